@@ -58,7 +58,7 @@ VARIABLES st,      \* FSM state at quiescence: "Waiting" | "Finished" | "Errored
           net,     \* flight -> [n, d, s]: datagrams in flight that are single (n), that have an identical
                    \* twin in flight (d: created by Dup), and stale twins whose original was delivered (s).
                    \* A stale twin carries record numbers the receiver has already accepted: the
-                   \* anti-replay window drops it before it reaches the handshake layer.
+                   \* anti-replay window drops its PROTECTED records (see ClearHS for the cleartext ones).
           drops, dups, touts,
           emitted, \* per endpoint: number of datagrams emitted (C17 bound), capped
           inputs,  \* per endpoint: timer events + datagrams received (capped), the budget side of the C17 bound
@@ -99,9 +99,15 @@ PutK(n, f) == [n EXCEPT ![f].n = IF n[f].n + n[f].d < Cap THEN @ + 1 ELSE @]
 \* a flight is emitted: every datagram of it enters the network
 Put(n, f) == IF Split /\ f = "F4" THEN PutK(PutK(n, "F4x"), "F4y") ELSE PutK(n, f)
 \* one copy of kind k ("n" | "d") of flight f leaves the network towards its destination
-Take(n, f, k) == IF k = "n" THEN [n EXCEPT ![f].n = @ - 1]
-                 ELSE [n EXCEPT ![f].d = @ - 1, ![f].s = @ + 1]
-Has(f, k) == IF k = "n" THEN net[f].n > 0 ELSE net[f].d > 0
+Take(n, f, k) == CASE k = "n" -> [n EXCEPT ![f].n = @ - 1]
+                   [] k = "d" -> [n EXCEPT ![f].d = @ - 1, ![f].s = @ + 1]
+                   [] OTHER   -> [n EXCEPT ![f].s = @ - 1]
+Has(f, k) == CASE k = "n" -> net[f].n > 0 [] k = "d" -> net[f].d > 0 [] OTHER -> net[f].s > 0
+\* datagrams that carry a cleartext (epoch 0) handshake record.  Epoch-0 records are not subject to the anti-replay window
+\* (they are not authenticated: the "fix:" commit that stops a forged cleartext record from moving the window), so the
+\* second copy of a duplicated datagram reaches the handshake layer again, where message_seq marks it a retransmission.
+\* ChangeCipherSpec + Finished datagrams (F6, F5b) wake nothing: their only handshake record is protected.
+ClearHS(f) == f \notin {"F6", "F5b"}
 Inc(m, e) == [m EXCEPT ![e] = IF @ < EmitCap THEN @ + 1 ELSE @]
 
 \* the endpoint e (re)sends flight f: the datagram enters the network
@@ -161,12 +167,14 @@ Deliver(f, k) ==
                /\ st' = [st EXCEPT ![e] = IF LastSend(nf) THEN "Finished" ELSE "Waiting"]
                /\ est' = [est EXCEPT ![e] = @ \/ LastSend(nf)]
 
-\* a stale twin arrives: dropped by the anti-replay window, invisible to the handshake layer
+\* a stale twin arrives: its protected records are dropped by the anti-replay window; its cleartext handshake records are
+\* processed again, as a retransmission
 DeliverStale(f) ==
-  /\ net[f].s > 0
-  /\ net' = [net EXCEPT ![f].s = @ - 1]
-  /\ cause' = "none" /\ lastEmit' = <<>>
-  /\ UNCHANGED <<st, fl, retx, bk, got, est, drops, dups, touts, emitted, inputs>>
+  IF ClearHS(f) THEN Deliver(f, "s")
+  ELSE /\ net[f].s > 0
+       /\ net' = [net EXCEPT ![f].s = @ - 1]
+       /\ cause' = "none" /\ lastEmit' = <<>>
+       /\ UNCHANGED <<st, fl, retx, bk, got, est, drops, dups, touts, emitted, inputs>>
 
 \* the network loses one copy
 Drop(f, k) ==
